@@ -16,7 +16,7 @@ from . import c17
 
 ID = "C01"
 LEVEL = "exploration"
-QUICK_RUNS = 1200
+QUICK_RUNS = 4800
 RULE = ("Each run: drawn context-free policy and hyper-parameters, arm labels, data regime (exact: dyadic rewards, "
         "comparisons with ==; float: relative 1e-9), a history over fit / partial_fit (0-24 rows, batches that omit "
         "arms, single rows) / add_arm / remove_arm (incl. re-adding a removed label) / queries with rejected calls and "
